@@ -22,6 +22,11 @@ CLAIMED = {
         design_ref='DESIGN.md §5 C08',
         note='claimed in part: idl_theory, lra_theory bounds and sat_core trail; rdl_theory (same code shape), ov_theory and solver-level push/pop not yet under contract; matrix 2x2 (quick) / 3x3, 2 arithmetic variables, 4 propositional variables; value listeners not registered; lra constraint propagation callbacks abstracted; no native replay driver',
         technique='contract-based deductive verification of an inductive data-structure invariant (CBMC function contracts via goto-instrument --dfcc) on C extracted from the real C++'),
+    'C10': dict(
+        text='idl_theory::propagate(from, to, dist) - the incremental all-pairs-shortest-paths step every asserted difference constraint goes through - is extracted to C on every run and proved to turn a closed distance matrix into exactly the closure of the old matrix plus the new edge (D\'[i][j] = min(D[i][j], D[i][from] + dist + D[to][j])), keeping it closed; set_dist/set_pred are replaced by their C08-proved contracts. This is the inductive step of "reported distances are the tightest ones implied", so it covers histories of any length.',
+        design_ref='DESIGN.md §5 C10',
+        note='claimed in part: the distance-exactness step of idl_theory only; conflict detection = negative cycle, validity of explanations (predecessor matrix), re-propagation of registered constraints, matrix growth and rdl_theory are not yet under contract; 3 (quick) / 4 time points, finite weights in [-8, 8] plus the inf() sentinel',
+        technique='contract-based deductive verification of an inductive invariant step (CBMC function contracts via goto-instrument --dfcc) on C extracted from the real C++'),
 }
 
 _DEFAULT_NA = 'not yet brought under contract in this state of the machinery (see DESIGN.md §5 for the planned contracts)'
